@@ -11,6 +11,7 @@ import FerretVerif.Drv.DepGraph
 import FerretVerif.Drv.RtMap
 import FerretVerif.Drv.Core
 import FerretVerif.Drv.Cfg
+import FerretVerif.Drv.Mut
 
 open FerretVerif
 
@@ -61,6 +62,7 @@ def main (args : List String) : IO UInt32 := do
   | ["limbs"] => eachLine cmdLimbs; return 0
   | ["literal"] => eachLine cmdLiteral; return 0
   | ["layout"] => eachLine cmdLayout; return 0
+  | ["mut"] => eachLine cmdMut; return 0
   | ["cfg"] => eachLine cmdCfg; return 0
   | ["core"] => eachLine (cmdCore 20000); return 0
   | ["rt"] => eachLineState ({} : RtState) stepRt; return 0
